@@ -694,6 +694,10 @@ impl HwMonitor {
         }
         let b = &bytes[..ins.len()];
         let st = steer(rng, &ins, b, rip, so);
+        if st.invalid {
+            col.count("skipped_branch_slot_overlaps_own_bytes", 1);
+            return None;
+        }
         self.run_trial(col, &ins, &st, stratum)
     }
 }
